@@ -7,15 +7,15 @@ from bounded import geo, gen, repl
 
 
 def check(spec):
-    case = repl.planted(spec['cell'], spec['pair'], spec['copies'], spec['seed'])
-    sp, rp = repl.patterns(spec['pair'], with_terms=spec.get('extras', False), extras=spec.get('extras', False))
+    case = repl.planted(spec['cell'], spec['pair'], spec['copies'], spec['seed'], near_miss=spec.get('near_miss', 0), atol=spec.get('atol', 0.05), noise=spec.get('noise', 0.0))
+    sp, rp = repl.patterns(spec['pair'], with_terms=spec.get('extras', False), extras=spec.get('extras', False), relabel=spec.get('relabel', False))
     S = case['structure']
     cell = case['cell']
     f = spec.get('f', 1.0)
     replace_all = spec.get('replace_all', False)
     before = [repl.snapshot(x) for x in (S, sp, rp)]
     try:
-        res, num = repl.do_replace(case, sp, rp, seed=spec.get('rng', 0), replace_fraction=f, replace_all=replace_all)
+        res, num = repl.do_replace(case, sp, rp, seed=spec.get('rng', 0), replace_fraction=f, replace_all=replace_all, **({'atol': spec['atol']} if 'atol' in spec else {}))
     except Exception as e:
         return "replace_pattern_in_structure raised %r" % (e,)
     after = [repl.snapshot(x) for x in (S, sp, rp)]
@@ -100,6 +100,14 @@ def specs(tier, seed):
     for pi, pair in enumerate(['grow-shared', 'swap-element', 'disjoint']):
         for f in (0.5, 1.0):
             out.append(dict(cell='ortho', pair=pair, copies=3, seed=seed * 100 + 70 + pi, f=f, replace_all=False, rng=pi, extras=True))
+    # a tolerance other than the default, with a distorted copy that is clearly outside it (2.5 atol): replaced are the occurrences found at THAT tolerance
+    for pi, pair in enumerate(['swap-element', 'grow-shared', 'shrink-shared', 'disjoint']):
+        for atol in (0.01, 0.02, 0.1):
+            out.append(dict(cell=cells[(pi + 1) % len(cells)], pair=pair, copies=2, seed=seed * 100 + 60 + pi, f=1.0, replace_all=False, rng=pi, near_miss=1, atol=atol))
+    # the replacement names its atom types differently; slightly distorted copies (retained atoms stay where they are)
+    for pi, pair in enumerate(['swap-element', 'grow-shared', 'shrink-shared', 'grow-interleaved']):
+        for noise in (0.0, 0.01):
+            out.append(dict(cell=cells[(pi + 2) % len(cells)], pair=pair, copies=3, seed=seed * 100 + 50 + pi, f=1.0, replace_all=False, rng=pi, relabel=True, noise=noise))
     return out
 
 
